@@ -969,8 +969,9 @@ def _group_methods() -> List[Method]:
             M.append(Method("g", "_ngroup()", "_ngroup()", [], None, skip="_ngroup() has no documentation (not a Term method, no docstring)"))
         M.append(Method(cls, "_size()", "_size()", [], wrap_(_agg_ref("_size"))))
         if cls == "p":
-            M.append(Method("p", "a.all()", "v.all()", ["bool"], _agg_ref("all"), nonnull, "missing items in all()/any() not documented"))
-            M.append(Method("p", "a.any()", "v.any()", ["bool"], _agg_ref("any"), nonnull, "missing items in all()/any() not documented"))
+            M.append(Method("p", "a.all()", "v.all()", ["bool"], _agg_ref("all"), nonnull, "missing items in all(): 'True if all items True' does not say whether a missing item counts"))
+            # any(): 'True if any items True' is determinate with missing items too (a missing item is not a True item); all() is not ('all items True': is a missing item True?)
+            M.append(Method("p", "a.any()", "v.any()", ["bool"], lambda vals: any(v is True for v in vals)))
         M.append(Method(cls, "z.count()", "v.count()", ["num"], wrap_(_agg_ref("count"))))
         for nm in ("max", "mean", "median", "min", "nunique"):
             M.append(Method(cls, "x.%s()" % nm, "v.%s()" % nm, ["num"], wrap_(_agg_ref(nm))))
